@@ -20,7 +20,8 @@ Notation runS := (interp_s sstate srv_react srv_connect srv_tls).
 Definition spec_op_alt (ver : bool) (o : op) (s : sstate) : option (value * sstate) :=
   match o with
   | OListscripts => Some (VListing (fst (listing_of s)) (snd (listing_of s)), s)
-  | OGetscript n => match assoc_get n (s_store s) with Some c => Some (VBytes (norm c), s) | None => None end
+  | OGetscript n => match assoc_get n (s_store s) with Some c => Some (VBytes (norm c), s) | None => Some (VNone, s) end
+  | OLogout => Some (VNone, s)
   | _ =>
       match op_command o with
       | Some (verb, args) =>
@@ -193,6 +194,33 @@ Proof.
   intros o verb args H Hok. destruct o; cbn in H; try discriminate; inversion H; subst; cbn; auto.
 Qed.
 
+Lemma conforming_of_live : forall s s3, conforming s -> live s3 -> s_faults s3 = s_faults s -> conforming s3.
+Proof. intros s s3 (_ & _ & C3) (L1 & L2) Hf. unfold conforming. repeat split; congruence. Qed.
+
+Lemma getscript_missing_fuel : forall F name st (w : sworld sstate) (k : kont),
+  c_auth st = true -> ok_world w -> assoc_get name (s_store (s_peer sstate w)) = None -> 1 <= F ->
+  exists st1 w',
+    runS (getscript F name st k) w = runS (k st1 VNone) w' /\ c_auth st1 = c_auth st /\ c_caps st1 = c_caps st /\
+    ok_world w' /\ same_data (s_peer sstate w) (s_peer sstate w').
+Proof.
+  intros F name st w k Ha (Hs & Hc) Hg HF. destruct (conforming_live _ Hc) as (Hl & Hf).
+  assert (E : F = S (F - 1)) by lia. rewrite E.
+  destruct (getscript_missing_k_gen (F - 1) name st w k Ha Hs Hl Hf Hg) as (c & s3 & R & L3 & F3 & _ & S1 & S2 & S3).
+  eexists. eexists. split; [exact R|]. split; [reflexivity|]. split; [reflexivity|].
+  split; [split; [reflexivity|exact (conforming_of_live _ _ Hc L3 F3)]|]. repeat split; assumption.
+Qed.
+
+Lemma logout_fuel : forall F st (w : sworld sstate) (k : kont),
+  ok_world w -> 1 <= F ->
+  exists w', runS (logout F st k) w = runS (k st VNone) w' /\ ok_world w' /\ same_data (s_peer sstate w) (s_peer sstate w').
+Proof.
+  intros F st w k (Hs & Hc) HF. destruct (conforming_live _ Hc) as (Hl & Hf).
+  assert (E : F = S (F - 1)) by lia. rewrite E.
+  destruct (logout_k_gen (F - 1) st w k Hs Hl Hf) as (s3 & R & L3 & F3 & _ & S1 & S2 & S3).
+  eexists. split; [exact R|].
+  split; [split; [reflexivity|exact (conforming_of_live _ _ Hc L3 F3)]|]. repeat split; assumption.
+Qed.
+
 Theorem spec_op_runs : forall F ver o st (w : sworld sstate) s v s',
   c_auth st = true -> has_cap (bs "VERSION") st = ver -> ok_world w -> same_data s (s_peer sstate w) ->
   names_ok s -> op_ok o -> length (s_store s) < F -> 3 <= F ->
@@ -222,6 +250,11 @@ Proof.
     exists (answer_state a c st), w1. split; [reflexivity|].
     split; [destruct a; cbn; auto|]. split; [destruct a; cbn; auto|]. auto. }
   destruct o; cbn [spec_op_alt] in Hspec; try (cbn [op_command] in Hspec; discriminate).
+  - (* LOGOUT *)
+    inversion Hspec; subst v s'. clear Hspec. cbn [run_op].
+    destruct (logout_fuel F st w finish Hw ltac:(lia)) as (w1 & R & Hw1 & D1).
+    rewrite R. exists st, w1. split; [reflexivity|]. split; [exact Ha|]. split; [reflexivity|]. split; [exact Hw1|].
+    split; [exact (same_data_trans _ _ _ D D1)|]. split; [exact Hn|lia].
   - (* HAVESPACE *) cbn [op_command needs_version negb orb] in Hspec. eapply Hsimple; [reflexivity|discriminate|exact Hspec].
   - (* LISTSCRIPTS *)
     inversion Hspec; subst v s'. clear Hspec. cbn [run_op].
@@ -230,7 +263,14 @@ Proof.
     rewrite R, (listing_of_same_data _ _ D).
     exists st, w1. split; [reflexivity|]. split; [exact Ha|]. split; [reflexivity|]. split; [exact Hw1|]. split; [exact (same_data_trans _ _ _ D D1)|]. split; [exact Hn|lia].
   - (* GETSCRIPT *)
-    destruct (assoc_get name (s_store s)) as [c|] eqn:Eg; [|discriminate]. inversion Hspec; subst v s'. clear Hspec. cbn [run_op].
+    destruct (assoc_get name (s_store s)) as [c|] eqn:Eg.
+    2:{ (* a script that does not exist *)
+        inversion Hspec; subst v s'. clear Hspec. cbn [run_op].
+        destruct (getscript_missing_fuel F name st w finish Ha Hw ltac:(destruct D as (X & _); rewrite X; exact Eg) ltac:(lia))
+          as (st1 & w1 & R & A1 & C1 & Hw1 & D1).
+        rewrite R. exists st1, w1. split; [reflexivity|]. split; [congruence|]. split; [exact C1|]. split; [exact Hw1|].
+        split; [exact (same_data_trans _ _ _ D D1)|]. split; [exact Hn|lia]. }
+    inversion Hspec; subst v s'. clear Hspec. cbn [run_op].
     destruct (getscript_fuel F name c st w finish Ha Hw ltac:(destruct D as (X & _); rewrite X; exact Eg) HF3) as (w1 & R & Hw1 & D1).
     rewrite R. exists st, w1. split; [reflexivity|]. split; [exact Ha|]. split; [reflexivity|]. split; [exact Hw1|]. split; [exact (same_data_trans _ _ _ D D1)|]. split; [exact Hn|lia].
   - (* PUTSCRIPT *) cbn [op_command needs_version negb orb] in Hspec. eapply Hsimple; [reflexivity|discriminate|exact Hspec].
